@@ -79,8 +79,14 @@ func c07Arg(f []string, k int) []byte {
 	return make([]byte, 0)
 }
 
-// c07Guard runs one case under recover() and a watchdog.
+var c07Hangs int
+
+// c07Guard runs one case under recover() and a watchdog.  A hung call cannot be killed, so after three
+// hangs the remaining cases are not run (each would cost the full watchdog time on a busy CPU).
 func c07Guard(fn func() string) string {
+	if c07Hangs >= 3 {
+		return "skipped-after-3-hangs"
+	}
 	ch := make(chan string, 1)
 	go func() {
 		defer func() {
@@ -90,12 +96,13 @@ func c07Guard(fn func() string) string {
 		}()
 		ch <- fn()
 	}()
-	tm := time.NewTimer(3 * time.Second)
+	tm := time.NewTimer(2 * time.Second)
 	defer tm.Stop()
 	select {
 	case s := <-ch:
 		return s
 	case <-tm.C:
+		c07Hangs++
 		return "hang"
 	}
 }
